@@ -181,6 +181,12 @@ def run(project: Project, rep, tier: str):
             check_pixel(project, rep, weight, kernel, sigma, skew, label)
     check_fast_guard(project, rep)
     check_registry(project, rep)
+    # the correlated-Gaussian path is not evaluated symbolically; the structural clauses of its CDF that the pixel value
+    # depends on are shared with C13 (guards that drop terms, stale quantities across the sign flip, dispatch wiring)
+    from .c13 import check_dispatch, check_guards, check_stale
+    check_guards(project, rep)
+    check_stale(project, rep)
+    check_dispatch(project, rep)
     for rn, n in (("PI-PIXEL", 6), ("PI-AXIS", 6), ("PI-UNITS", 3), ("PI-FAST", 1), ("PI-REG", 6)):
         rep.floor(rn, n)
     for t in ("numpy.meshgrid", "numpy.reshape", "numpy.ndarray.flatten", "scipy.special.erfc", "numpy.zeros"):
